@@ -160,7 +160,8 @@ class Thermal(_Simu):
         else:
             v = np.zeros_like(u)
 
-        self._Set_solutions(self.problemType, u, v)
+        # the second rate is not used by the thermal schemes, but it must keep the size of the restored mesh
+        self._Set_solutions(self.problemType, u, v, np.zeros_like(u))
 
         return results
 
